@@ -240,6 +240,17 @@ def r3_no_wrap(ctx):
                         (msg, ", ".join(show(o, 100) for o in ops)), mv.where(bi))
         else:
             r.ok("overflow-unrelated@%s" % msg, "assertion not on a multiplier-derived value", mv.where(bi))
+    # std calls that overflow on their own: abs/neg/pow of a signed value (|MIN| is not representable)
+    from rules.engine import panics
+    for st in panics.inventory(ctx.prog, [mv]):
+        if st.kind == "extern" and st.what in ("abs", "pow") and not st.exp:
+            d = panics.auto_discharge(ctx.prog, st)
+            if d:
+                r.ok("std-overflow/%s" % st.what, "%s: %s" % d, st.where())
+            else:
+                n += 1
+                r.violation("std-overflow/%s" % st.what, "%s(%s) overflows for the most negative value: panics with overflow checks, yields a negative 'magnitude' without — "
+                            "a delta of MIN makes sealing fail or the multiplier jump" % (st.expr[1], ", ".join(show(o, 60) for o in st.operands)), st.where())
     if n == 0:
         r.ok("no-wrap", "no lossy cast and no overflow assertion on the multiplier path")
 
